@@ -13,7 +13,7 @@ import inspect
 ID = "C10"
 LEVEL = "exploration"
 EXHAUSTIVE = True
-ONLINE = False
+ONLINE = True
 RULE = (
     "for every (registered tag T, schema complex type tau of T, child X the class of T declares and tau permits): "
     "sibling contexts = X alone / with each single other permitted child (both orders, sandwich) / with all later / all "
@@ -233,6 +233,10 @@ def run_unit(unit, tier, seed, acc):
 
 
 def replay(w, acc):
+    if "profile" in w:
+        from vlib import histories
+
+        return histories.replay_history(dict(w, save_every=7), acc, {"C10"})
     from pptx.oxml import oxml_parser
     from vlib import introspect, xsdkit
 
@@ -256,3 +260,5 @@ def finalize(acc, tier, seed):
         acc.inconclusive.append("no insertion was validated")
     if not acc.counters.get("triples_checked"):
         acc.inconclusive.append("no (tag,type,child) triple was checked")
+    if ONLINE and not acc.counters.get("M-INS:judged"):
+        acc.inconclusive.append("online monitor M-INS never judged an insertion")
